@@ -15,6 +15,9 @@ type ExchangeJSightSchema struct {
 	*jschema.JSchema
 
 	onceCompile            sync.Once
+	onceExample            sync.Once
+	example                []byte
+	exampleErr             error
 	catalogUserTypes       *UserTypes
 	disableExchangeExample bool
 
@@ -116,9 +119,13 @@ func (e *ExchangeJSightSchema) processAllOf(uut *StringSet) error {
 	return e.exchangeContent.processAllOf(uut, e.catalogUserTypes)
 }
 
+// Example returns the example of the schema. It is generated once: the generator
+// behind regex user types is stateful and would give another value on every call.
 func (e *ExchangeJSightSchema) Example() ([]byte, error) {
-	// TODO once
-	return e.JSchema.Example()
+	e.onceExample.Do(func() {
+		e.example, e.exampleErr = e.JSchema.Example()
+	})
+	return e.example, e.exampleErr
 }
 
 func (e *ExchangeJSightSchema) MarshalJSON() ([]byte, error) {
